@@ -229,8 +229,12 @@ def session_unit(kind):
         if kind == "writing":
             scen = [(c, p_, br, None, False) for c in (True, False) for p_ in (0, 1, 2) for br in (False, True)]
             scen += [(True, 1, False, "sym", False), (False, 0, False, None, True)]
+            # the body may also be left by an exception that is not an `Exception` (Ctrl-C -> KeyboardInterrupt, sys.exit -> SystemExit,
+            # a discarded generator -> GeneratorExit): the session still ends properly
+            scen += [(True, 1, "KeyboardInterrupt", None, False), (False, 0, "KeyboardInterrupt", None, False)]
         else:
             scen = [(c, 0, br, None, True) for c in (True, False) for br in (False, True)] + [(True, 0, False, "sym", False)]
+            scen += [(True, 0, "KeyboardInterrupt", None, True)]
         cached, pending, body_raises, timeout, readonly = V.choose(scen, "scenario")
         tail = "clean"
         H1, H2, B0, bof, ch = U.file_state(V, cell, tail)
@@ -257,7 +261,7 @@ def session_unit(kind):
                 outcome = ("enter-raised", e.value)
             if entered:
                 if body_raises:
-                    exc = PyExc(Obj(I.builtins["Exception"], {"args": ("body",)}, tag="body-exc"))
+                    exc = PyExc(Obj(I.builtins["KeyboardInterrupt" if body_raises == "KeyboardInterrupt" else "Exception"], {"args": ("body",)}, tag="body-exc"))
                     try:
                         swallowed = I.ctx_exit(cm, exc)
                         outcome = ("exit-returned", swallowed)
